@@ -96,7 +96,7 @@ def name_matrix(a, prefix, symmetric=False):
             continue
         v = S.C.fresh(prefix)
         S.C.cons.append(v == c0)
-        S.C.defs[str(v)] = ('value', (lambda ev, t=c0: ev.ev(t)))
+        S.C.defs[str(v)] = ('value', (lambda ev, t=c0: ev.ev(t)), c0)
         S.C.keep.append(c0)
         out[idx] = S.const(v)
     return out
